@@ -346,3 +346,32 @@ def run_parallel_sorted(clause, modname, fname, cases, chunk=2000, per_signature
         clause.bound += ' [%d violating cases found, %d kept: <= %d per failure signature, shortest inputs first]' % (
             count, len(kept), per_signature)
     return clause
+
+
+# ---------------------------------------------------------------------------------------------
+class time_limit:
+    """`with time_limit(5): ...` raises TimeoutError in the main thread of the (worker) process after that many seconds,
+    so that a change which makes an expansion loop for ever is reported as a violation instead of hanging the run"""
+
+    def __init__(self, seconds):
+        self.seconds = seconds
+        self.armed = False
+
+    def _fire(self, signum, frame):
+        raise TimeoutError('no result within %s s' % self.seconds)
+
+    def __enter__(self):
+        import signal
+        import threading
+        if threading.current_thread() is threading.main_thread() and hasattr(signal, 'setitimer'):
+            self.old = signal.signal(signal.SIGALRM, self._fire)
+            signal.setitimer(signal.ITIMER_REAL, self.seconds)
+            self.armed = True
+        return self
+
+    def __exit__(self, *exc):
+        if self.armed:
+            import signal
+            signal.setitimer(signal.ITIMER_REAL, 0)
+            signal.signal(signal.SIGALRM, self.old)
+        return False
